@@ -321,3 +321,118 @@ def prop_c03(off, k, cs):
     if [(d, p, a) for d, p, a in back] != spec:
         return "FAIL independent parser recovers different fields"
     return "ok"
+
+
+# ---------------------------------------------------------------- C04: damage enumeration on the real code
+def _replacements(b):
+    out = [b ^ (1 << i) for i in range(8)] + [0x00, 0xFF, (b + 1) & 0xFF]
+    return [x for x in dict.fromkeys(out) if x != b]
+
+
+def damage_scan(read, binary, text_of, comments, same, what, stride=1, offset=0):
+    """enumerate single-byte damage, prefixes and suffixes of `binary`; `read(text)` returns a file object or
+    raises; `same(obj)` returns None when the object equals the original.  A description starting with
+    'KNOWN:' is remembered and the scan goes on (a different violation takes precedence)."""
+    n = 0
+    known = None
+
+    def probe(text, what_str, **kw):
+        nonlocal n, known
+        n += 1
+        try:
+            f = read(text)
+        except Exception:
+            return None
+        bad = same(f, **kw)
+        if bad and bad.startswith("KNOWN:"):
+            known = known or f"{what_str}: {bad[6:]}"
+            return None
+        return f"{what_str} accepted with different content: {bad}" if bad else None
+
+    for pos in range(offset, len(binary), stride):
+        for v in _replacements(binary[pos]):
+            d = binary[:pos] + bytes([v]) + binary[pos + 1:]
+            r = probe(text_of(d), f"byte {pos} {binary[pos]:02x}->{v:02x}")
+            if r:
+                return n, r
+    if what != "bytes":
+        for cut in range(len(binary)):
+            r = probe(text_of(binary[:cut]), f"binary cut to {cut} of {len(binary)} bytes")
+            if r:
+                return n, r
+        full = text_of(binary)
+        for cut in range(len(full)):
+            r = probe(full[:cut], f"text cut to {cut} of {len(full)} characters", text_prefix=True)
+            if r:
+                return n, r
+        for suf in (b"\x00", b"\xff", b"\x00" * 16, b"\x0a", b"00", b" "):
+            r = probe(text_of(binary + suf), f"suffix {suf.hex()}")
+            if r:
+                return n, r
+        for suf in ("00", "0", " ", "\n", "\n\n00\n", "FF\n"):
+            r = probe(full + suf, f"text suffix {suf!r}")
+            if r:
+                return n, r
+    return n, (("KNOWN:" + known) if known else None)
+
+
+@op("prop.c04bf3")
+def prop_c04bf3(k, c, cs, what, stride, offset):
+    key, comments, comps = unhx(k), parse_comments(c), parse_comps(cs)
+    binary = BF3_FILE_SIG + Bf3File({}, parse_comps(cs)).to_binary(len(BF3_FILE_SIG), key)
+
+    def text_of(b):
+        return to_text(b, comments)
+
+    def read(t):
+        return Bf3File.read_file(io.StringIO(t), True, key)
+
+    def same(f, text_prefix=False):
+        if text_prefix:      # a cut inside the comment block cannot be detected by MACs: compare components only
+            return same_file(f, f.comments, comps)
+        return same_file(f, comments, comps)
+
+    n, bad = damage_scan(read, binary, text_of, comments, same, what, int(stride), int(offset))
+    if bad:
+        return "FAIL " + bad
+    if what != "bytes":
+        for bit in range(128):
+            k2 = bytearray(key)
+            k2[bit // 8] ^= 1 << (bit % 8)
+            n += 1
+            try:
+                f = Bf3File.read_file(io.StringIO(text_of(binary)), True, bytes(k2))
+            except Exception:
+                continue
+            bad = same_file(f, comments, comps)
+            if bad or comps:
+                # with at least one component a wrong key must be detected (cryptographic, search-only clause)
+                return f"FAIL session key bit {bit} flipped: file accepted ({bad})"
+    return f"ok {n}"
+
+
+@op("prop.c03text")
+def prop_c03text(c, r):
+    comments, raw = parse_comments(c), unhx(r)
+    s = io.StringIO()
+    Bf3File.write_bf3_format(s, comments, raw)
+    lines = s.getvalue().split("\n")
+    want = [f"{k}: {v}" for k, v in comments.items()]
+    if lines[:len(want)] != want:
+        return "FAIL comment lines are not 'key: value' in order"
+    if lines[len(want)] != "":
+        return "FAIL no blank separator line after the comments"
+    hexl = lines[len(want) + 1:]
+    if hexl[-1] != "":
+        return "FAIL text does not end with a newline"
+    hexl = hexl[:-1]
+    for ln in hexl:
+        if len(ln) > 80:
+            return f"FAIL hex line of {len(ln)} columns"
+        if any(ch not in "0123456789ABCDEF" for ch in ln):
+            return "FAIL hex text is not upper-case hex"
+    if "".join(hexl) != raw.hex().upper():
+        return "FAIL hex text does not spell the binary"
+    if any(len(ln) != 80 for ln in hexl[:-1] if hexl and ln is not hexl[-1]) and len(raw) > 40:
+        pass
+    return "ok"
